@@ -174,6 +174,9 @@ def generate(rng, tier):
         manifest = "ws/NoSuch/Cargo.toml"
     elif mk < 23:
         manifest = os.path.join(pk[0]["dir"], "Cargo.lock")  # does not end in Cargo.toml
+    mspell = rng.choice(["plain", "plain", "dotdot", "symlink", "relative"]) if manifest and manifest.endswith("Cargo.toml") and mk < 15 else "plain"
+    if mspell == "symlink":
+        files["wslink"] = {"symlink": "ws"}
     check = rng.chance(30)
     msgfmt = rng.choice([None, None, None, "short", "json", "human"])
     after = rng.choice([[], [], ["--config", "max_width=80"], ["-v"], ["--unstable-features", "--skip-children"]])
@@ -183,7 +186,7 @@ def generate(rng, tier):
     return {
         "world": {"files": files}, "packages": [p["name"] for p in pk], "ext": [p["name"] for p in ext],
         "virtual": virtual, "single": single, "sel_kind": sel_kind, "sel": sel, "cwd": cwd, "subdir": subdir,
-        "manifest": manifest, "check": check, "msgfmt": msgfmt, "after": after, "fault": fault,
+        "manifest": manifest, "mspell": mspell, "check": check, "msgfmt": msgfmt, "after": after, "fault": fault,
         "fault_arg": rng.below(1000), "hashseed": rng.below(1 << 32),
         "dirs": {p["name"]: p["dir"] for p in allp}, "deps": {p["name"]: list(p["deps"]) for p in allp}, "e2e": rng.chance(8) and not msgfmt and not check and after in ([], ["--config", "max_width=80"]),
     }
@@ -303,7 +306,17 @@ def execute(case):
         for s in case["sel"]:
             argv += ["-p", s]
         if manifest:
-            argv += ["--manifest-path", "$ROOT/" + manifest]
+            sp = case.get("mspell", "plain")
+            if sp == "dotdot":
+                parts = manifest.split("/")
+                marg = "$ROOT/" + "/".join(parts[:-1] + ["..", parts[-2], parts[-1]]) if len(parts) >= 2 else "$ROOT/" + manifest
+            elif sp == "symlink" and manifest.startswith("ws/"):
+                marg = "$ROOT/wslink/" + manifest[3:]
+            elif sp == "relative":
+                marg = os.path.relpath(manifest, case["cwd"])
+            else:
+                marg = "$ROOT/" + manifest
+            argv += ["--manifest-path", marg]
         if case["check"]:
             argv.append("--check")
         if case["msgfmt"]:
